@@ -33,7 +33,7 @@ pub fn term_j(t: &Term) -> Value {
     }
 }
 
-fn key_j(k: &MapKey) -> Value {
+pub(crate) fn key_j(k: &MapKey) -> Value {
     match k {
         MapKey::Integer(i) => json!({"int": i}),
         MapKey::Str(s) => json!({"str": s}),
@@ -69,7 +69,7 @@ pub fn term_b(v: &Value) -> Term {
     }
 }
 
-fn key_b(v: &Value) -> MapKey {
+pub(crate) fn key_b(v: &Value) -> MapKey {
     if let Some(x) = v.get("int") {
         MapKey::Integer(x.as_i64().unwrap())
     } else if let Some(x) = v.get("str") {
@@ -89,7 +89,7 @@ const BINARIES: [(&str, Binary); 28] = [
     ("lazyor", Binary::LazyOr), ("all", Binary::All), ("any", Binary::Any), ("get", Binary::Get),
 ];
 
-fn op_j(op: &Op) -> Value {
+pub(crate) fn op_j(op: &Op) -> Value {
     match op {
         Op::Value(t) => json!({"val": term_j(t)}),
         Op::Unary(u) => match u {
@@ -105,7 +105,7 @@ fn op_j(op: &Op) -> Value {
     }
 }
 
-fn op_b(v: &Value) -> Op {
+pub(crate) fn op_b(v: &Value) -> Op {
     if let Some(t) = v.get("val") {
         Op::Value(term_b(t))
     } else if let Some(u) = v.get("un") {
@@ -131,23 +131,23 @@ fn op_b(v: &Value) -> Op {
     }
 }
 
-fn expr_j(e: &Expression) -> Value {
+pub(crate) fn expr_j(e: &Expression) -> Value {
     Value::Array(e.ops.iter().map(op_j).collect())
 }
 
-fn expr_b(v: &Value) -> Expression {
+pub(crate) fn expr_b(v: &Value) -> Expression {
     Expression { ops: v.as_array().unwrap().iter().map(op_b).collect() }
 }
 
-fn pred_j(p: &Predicate) -> Value {
+pub(crate) fn pred_j(p: &Predicate) -> Value {
     json!({"name": p.name, "terms": p.terms.iter().map(term_j).collect::<Vec<_>>()})
 }
 
-fn pred_b(v: &Value) -> Predicate {
+pub(crate) fn pred_b(v: &Value) -> Predicate {
     Predicate { name: v["name"].as_str().unwrap().to_string(), terms: v["terms"].as_array().unwrap().iter().map(term_b).collect() }
 }
 
-fn scope_j(s: &Scope) -> Value {
+pub(crate) fn scope_j(s: &Scope) -> Value {
     match s {
         Scope::Authority => json!({"authority": true}),
         Scope::Previous => json!({"previous": true}),
@@ -156,7 +156,7 @@ fn scope_j(s: &Scope) -> Value {
     }
 }
 
-fn scope_b(v: &Value) -> Scope {
+pub(crate) fn scope_b(v: &Value) -> Scope {
     if v.get("authority").is_some() {
         Scope::Authority
     } else if v.get("previous").is_some() {
@@ -168,12 +168,12 @@ fn scope_b(v: &Value) -> Scope {
     }
 }
 
-fn rule_j(r: &Rule) -> Value {
+pub(crate) fn rule_j(r: &Rule) -> Value {
     json!({"head": pred_j(&r.head), "body": r.body.iter().map(pred_j).collect::<Vec<_>>(),
            "exprs": r.expressions.iter().map(expr_j).collect::<Vec<_>>(), "scopes": r.scopes.iter().map(scope_j).collect::<Vec<_>>()})
 }
 
-fn rule_b(v: &Value) -> Rule {
+pub(crate) fn rule_b(v: &Value) -> Rule {
     Rule::new(
         pred_b(&v["head"]),
         v["body"].as_array().unwrap().iter().map(pred_b).collect(),
@@ -182,7 +182,7 @@ fn rule_b(v: &Value) -> Rule {
     )
 }
 
-fn check_j(c: &Check) -> Value {
+pub(crate) fn check_j(c: &Check) -> Value {
     let kind = match c.kind {
         CheckKind::One => "one",
         CheckKind::All => "all",
@@ -191,7 +191,7 @@ fn check_j(c: &Check) -> Value {
     json!({"kind": kind, "queries": c.queries.iter().map(rule_j).collect::<Vec<_>>()})
 }
 
-fn check_b(v: &Value) -> Check {
+pub(crate) fn check_b(v: &Value) -> Check {
     Check {
         kind: match v["kind"].as_str().unwrap() {
             "one" => CheckKind::One,
@@ -202,11 +202,11 @@ fn check_b(v: &Value) -> Check {
     }
 }
 
-fn policy_j(p: &Policy) -> Value {
+pub(crate) fn policy_j(p: &Policy) -> Value {
     json!({"kind": if p.kind == PolicyKind::Allow { "allow" } else { "deny" }, "queries": p.queries.iter().map(rule_j).collect::<Vec<_>>()})
 }
 
-fn policy_b(v: &Value) -> Policy {
+pub(crate) fn policy_b(v: &Value) -> Policy {
     Policy {
         kind: if v["kind"] == "allow" { PolicyKind::Allow } else { PolicyKind::Deny },
         queries: v["queries"].as_array().unwrap().iter().map(rule_b).collect(),
@@ -220,7 +220,7 @@ const NASTY: [&str; 24] = [
 ];
 const CHARS: [char; 19] = ['"', '\\', 'n', '\n', 'a', ' ', ',', ')', '}', ']', '\u{e9}', '\u{1F600}', '$', '{', ';', '\r', '\0', '\u{7f}', '\u{2028}'];
 
-fn gen_str(rng: &mut StdRng) -> String {
+pub(crate) fn gen_str(rng: &mut StdRng) -> String {
     match rng.gen_range(0..6) {
         0 | 1 => (0..rng.gen_range(0..7)).map(|_| *pick(rng, &CHARS)).collect(),
         // any scalar value at all
@@ -229,7 +229,7 @@ fn gen_str(rng: &mut StdRng) -> String {
     }
 }
 
-fn gen_scalar(rng: &mut StdRng, kind: u32) -> Term {
+pub(crate) fn gen_scalar(rng: &mut StdRng, kind: u32) -> Term {
     match kind {
         0 => Term::Integer(*pick(rng, &[0i64, 1, -1, 42, 7, i64::MAX, i64::MIN, -1234567890123])),
         1 => Term::Str(gen_str(rng)),
@@ -240,7 +240,7 @@ fn gen_scalar(rng: &mut StdRng, kind: u32) -> Term {
     }
 }
 
-fn gen_term(rng: &mut StdRng, d: u32, allow_var: bool) -> Term {
+pub(crate) fn gen_term(rng: &mut StdRng, d: u32, allow_var: bool) -> Term {
     match rng.gen_range(0..if d == 0 { 8 } else { 11 }) {
         0 => gen_scalar(rng, 0),
         1 | 2 => gen_scalar(rng, 1),
@@ -381,7 +381,7 @@ fn gen_expression(rng: &mut StdRng, loose: bool) -> Expression {
     Expression { ops }
 }
 
-fn gen_pred(rng: &mut StdRng, vars: bool) -> Predicate {
+pub(crate) fn gen_pred(rng: &mut StdRng, vars: bool) -> Predicate {
     Predicate { name: pick(rng, &["f", "resource", "a_b", "x1", "ns:pred", "Trusting"]).to_string(), terms: (0..rng.gen_range(1..4)).map(|_| gen_term(rng, 2, vars)).collect() }
 }
 
@@ -402,7 +402,7 @@ fn gen_body(rng: &mut StdRng, keys: &Keys, loose: bool) -> Rule {
     Rule::new(Predicate { name: "query".into(), terms: vec![] }, body, (0..ne).map(|_| gen_expression(rng, loose)).collect(), gen_scopes(rng, keys))
 }
 
-fn gen_rule(rng: &mut StdRng, keys: &Keys, loose: bool) -> Rule {
+pub(crate) fn gen_rule(rng: &mut StdRng, keys: &Keys, loose: bool) -> Rule {
     let mut body = gen_body(rng, keys, loose);
     if body.body.is_empty() {
         body.body.push(gen_pred(rng, true));
@@ -419,18 +419,18 @@ fn gen_rule(rng: &mut StdRng, keys: &Keys, loose: bool) -> Rule {
     Rule::new(Predicate { name: "h".into(), terms }, body.body, body.expressions, body.scopes)
 }
 
-fn gen_check(rng: &mut StdRng, keys: &Keys, loose: bool) -> Check {
+pub(crate) fn gen_check(rng: &mut StdRng, keys: &Keys, loose: bool) -> Check {
     let kind = pick(rng, &[CheckKind::One, CheckKind::All, CheckKind::Reject]).clone();
     let n = rng.gen_range(1..3);
     Check { kind, queries: (0..n).map(|_| gen_body(rng, keys, loose)).collect() }
 }
 
-fn gen_policy(rng: &mut StdRng, keys: &Keys, loose: bool) -> Policy {
+pub(crate) fn gen_policy(rng: &mut StdRng, keys: &Keys, loose: bool) -> Policy {
     let n = rng.gen_range(1..3);
     Policy { kind: if rng.gen() { PolicyKind::Allow } else { PolicyKind::Deny }, queries: (0..n).map(|_| gen_body(rng, keys, loose)).collect() }
 }
 
-fn gen_item(rng: &mut StdRng, kind: &str, keys: &Keys, loose: bool) -> Value {
+pub(crate) fn gen_item(rng: &mut StdRng, kind: &str, keys: &Keys, loose: bool) -> Value {
     match kind {
         "fact" => pred_j(&gen_pred(rng, false)),
         "rule" => rule_j(&gen_rule(rng, keys, loose)),
@@ -467,7 +467,7 @@ fn same_policy(a: &Policy, b: &Policy) -> bool {
     a.kind == b.kind && a.queries.len() == b.queries.len() && a.queries.iter().zip(b.queries.iter()).all(|(a, b)| same_rule(a, b))
 }
 
-fn short<E: std::fmt::Debug>(e: E) -> String {
+pub(crate) fn short<E: std::fmt::Debug>(e: E) -> String {
     format!("{:?}", e).chars().take(240).collect()
 }
 
